@@ -432,6 +432,7 @@ class State:
         self.pc = []  # path condition (z3 bools)
         self.nobj = 0
         self.trace = []
+        self.klog = []  # per-path log of (x * CONST) mod 2^64 terms in execution order (Montgomery quotient digits)
 
     def clone(self):
         s = State()
@@ -439,6 +440,7 @@ class State:
         s.pc = list(self.pc)
         s.nobj = self.nobj
         s.trace = list(self.trace)
+        s.klog = list(self.klog)
         return s
 
     def alloc(self, name=None):
@@ -816,6 +818,7 @@ class Exec:
                         kc = a if isinstance(a, int) else b
                         if kc > 1 << 32:
                             c.kterms.append((t, kc))
+                            st.klog.append((t, kc))
                     return t
                 return c.mod(c.mul(a, b), n)
             if op == 'shl':
